@@ -49,6 +49,17 @@ Theorem C17_stub_determines_request : forall g1 g2 b, wf_getkey g1 = true -> wf_
 Proof. exact ndr64_getkey_injective. Qed.
 Print Assumptions C17_stub_determines_request.
 
+(* the hop through the endpoint mapper: the ept_map request goes out in clear on the first connection (nothing is handed to a security
+   context), on presentation context 0 with opnum 3, and its stub is the library's _EPT_MAP_ISD_KEY -- which C17_static_data shows
+   to be the ept_map request for the ISD_KEY / NDR tower on TCP port 135 with max_towers = 4 *)
+Theorem C17_ept_map_request : forall (wrap : wrap_fn) (unwrap : unwrap_fn) pv f legs dc sd rk l0 l1 l2 r t wire oargs,
+  get_key_conversation f wrap unwrap pv legs dc sd rk l0 l1 l2 = (r, t) ->
+  tr_ept_request t = Some (wire, oargs) ->
+  oargs = None /\ exists hdr16, len hdr16 = 16 /\
+    wire = hdr16 ++ fixed8 (len c_onl_ept_map_stub) c_onl_epm_ctx_id c_onl_ept_map_opnum ++ c_onl_ept_map_stub.
+Proof. exact conversation_ept_request. Qed.
+Print Assumptions C17_ept_map_request.
+
 (* ---- sealed at PKT_PRIVACY, with the interface verification trailer ----------------------------------------------------------
    the security trailer names level 6 and the padding; the wire is the 24 header octets, then what the security context returned
    for the whole stub region, then the trailer header and the signature; the region handed to the context is the stub, zero padding
